@@ -29,6 +29,7 @@ ASSUMPTIONS = [
 ]
 ANCHOR_FILES = ("src/pydrobert/speech/filters.py", "src/pydrobert/speech/scales.py")
 EXHAUSTIVE_PARTS = []
+SUITE_TESTS = ['tests/test_filters.py', 'tests/test_compute.py']  # the repository's own tests as an extra monitored workload (thorough tier)
 LEVEL_TEXT = (
     "Every bank constructed in the run (4000 quick / 60000 thorough, all four classes and every flag) has its layout compared with an independent "
     "implementation of the scale formulas, and thousands of filter probes are compared with the documented response shapes. Sampled exploration of a "
@@ -296,6 +297,10 @@ def plan(tier, seed):
 
 
 def run_shard(spec, rec):
+    if "suite" in spec:
+        from .. import suite
+
+        return suite.run(__name__.rsplit(".", 1)[-1], spec, rec)
     mon = Mon(rec)
     mon.attach()
     for i in range(spec["a"], spec["b"]):
